@@ -210,7 +210,6 @@ func c04One(x *mc.Cell, c c04Case) {
 	isRestart := c.Kind >= kRestartPushNet
 	pull := c.Kind == kNewPullTransport || c.Kind == kNewPullNet || c.Kind == kRestartPullTransport || c.Kind == kRestartPullNet
 	viaTransport := c.Kind == kNewPullTransport || c.Kind == kRestartPullTransport
-	chid := datatransfer.ChannelID{Initiator: doubles.PeerB, Responder: doubles.PeerA, ID: 7}
 	setup := Opts{Types: c.Reg}
 	if isRestart && c.NewMgr {
 		setup.Types = []string{"T", "U"}
@@ -219,6 +218,11 @@ func c04One(x *mc.Cell, c c04Case) {
 		return // an existing channel of type T cannot exist on a manager that never knew T
 	}
 	run(x, "C04", setup, c, func(n *Node) {
+		// the bystander (our own push to C) exists first and the request under test carries ITS transfer id: B numbers
+		// its transfers independently, the two channels differ in their peers only
+		by, _ := bystander(n)
+		tid := uint64(by.ID)
+		chid := datatransfer.ChannelID{Initiator: doubles.PeerB, Responder: doubles.PeerA, ID: by.ID}
 		voucher := doubles.Voucher("T", "v")
 		if isRestart {
 			// create the channel by a validated new request first
@@ -226,11 +230,11 @@ func c04One(x *mc.Cell, c c04Case) {
 				return datatransfer.ValidationResult{Accepted: true}, nil
 			}
 			if pull {
-				if _, err := n.H().OnRequestReceived(chid, NewReq(7, false, true, &voucher)); err != nil {
+				if _, err := n.H().OnRequestReceived(chid, NewReq(tid, false, true, &voucher)); err != nil {
 					panic(err)
 				}
 			} else {
-				n.RecvRequest(doubles.PeerB, NewReq(7, false, false, &voucher))
+				n.RecvRequest(doubles.PeerB, NewReq(tid, false, false, &voucher))
 			}
 			mc.Wait()
 			_ = n.H().OnTransferInitiated
@@ -253,7 +257,7 @@ func c04One(x *mc.Cell, c c04Case) {
 				n = n2
 			}
 		}
-		by, byDigest := bystander(n)
+		byDigest := digestOf(n, by)
 		for _, t := range c.Reg {
 			ans := c.Ans
 			t := t
@@ -270,21 +274,21 @@ func c04One(x *mc.Cell, c c04Case) {
 		var rq datatransfer.Request
 		switch c.Variant {
 		case "no-voucher":
-			rq = NewReq(7, isRestart, pull, nil)
+			rq = NewReq(tid, isRestart, pull, nil)
 		case "no-selector":
-			r, err := message.NewRequest(7, isRestart, pull, vptr, doubles.Cid("root"), nil)
+			r, err := message.NewRequest(datatransfer.TransferID(tid), isRestart, pull, vptr, doubles.Cid("root"), nil)
 			if err != nil {
 				return
 			}
 			rq = r
 		case "cid-mismatch":
-			r, _ := message.NewRequest(7, isRestart, pull, vptr, doubles.Cid("another-root"), doubles.AllSelector())
+			r, _ := message.NewRequest(datatransfer.TransferID(tid), isRestart, pull, vptr, doubles.Cid("another-root"), doubles.AllSelector())
 			rq = r
 		case "other-voucher":
 			ov := doubles.Voucher("T", "different")
-			rq = NewReq(7, isRestart, pull, &ov)
+			rq = NewReq(tid, isRestart, pull, &ov)
 		default:
-			rq = NewReq(7, isRestart, pull, vptr)
+			rq = NewReq(tid, isRestart, pull, vptr)
 		}
 		mk := n.Mark()
 		var returned datatransfer.Response
